@@ -56,7 +56,7 @@ func TestC16(t *testing.T) {
 		}
 		defer cl.Stop()
 		if !cl.WaitMembership(Deadline()) {
-			c.Fatalf("C16: cluster did not form")
+			Missf(c, "C16: cluster did not form")
 		}
 		c.Header["nodes"], c.Header["disable_disconnect_on_expiry"] = N, disableExpiry
 		var ups []*c16Up
